@@ -84,6 +84,26 @@ pub const BUILTIN: &[(&str, &str, &str)] = &[
         "3|0\n1\n2\n3\n",
     ),
     (
+        "builtin/main-defined-before-its-caller",
+        "def main(n: i64): i64 { println_i64(n); countdown(n) }\ndef countdown(n: i64): i64 { if n <= 0 { 0 } else { main(n - 1) } }\n",
+        "2|2\n1\n0\n",
+    ),
+    (
+        "builtin/empty-data-type-passed-through",
+        "data Void { }\ndef absurd(v: Void): Void { v }\ndef main(): i64 { println_i64(1); 0 }\n",
+        "1\n",
+    ),
+    (
+        "builtin/empty-codata-type",
+        "codata Unit { }\ndef u(x: Unit): Unit { x }\ndef mk(): Unit { new { } }\ndef main(): i64 { let k: Unit = u(mk()); println_i64(2); 0 }\n",
+        "2\n",
+    ),
+    (
+        "builtin/empty-polymorphic-type-bound-by-a-conditional",
+        "data Never[A] { }\ndef f(n: Never[i64], c: i64): Never[i64] { let x: Never[i64] = if c == 0 { n } else { n }; x }\ndef main(): i64 { println_i64(3); 0 }\n",
+        "3\n",
+    ),
+    (
         "builtin/main-calls-itself",
         "def main(n: i64, acc: i64): i64 { if n <= 0 { println_i64(acc); acc } else { main(n - 1, acc + n) } }\n",
         "4 0|10\n",
